@@ -8,6 +8,7 @@
 -/
 import Arrai.C02.Model
 import Arrai.C02.Assoc
+import Arrai.C02.SortNames
 
 namespace Arrai
 namespace FinSet
@@ -282,7 +283,7 @@ def depth : Rep → Nat
   | .generic xs => depthList xs + 1
   | .array vs _ _ => depthOpts vs + 1
   | .dict m => depthDict m + 1
-  | .relation _ rows => depthRows rows + 1
+  | .relation _ rows => depthRows rows + 2
   | .union bs => depthAttrs bs + 1
   | _ => 0
 def depthAttrs : List (String × Rep) → Nat
@@ -328,7 +329,11 @@ def frag : Rep → Bool
   | .generic xs => fragList xs
   | .array vs _ _ => fragOpts vs
   | .dict m => fragDict m
+  | .relation _ rows => fragRows rows
   | _ => false
+def fragRows : List (List Rep) → Bool
+  | [] => true
+  | row :: r => fragPlainList row && fragRows r
 def fragDict : List (Rep × List Rep) → Bool
   | [] => true
   | (k, vs) :: r => plain k && frag k && fragPlainList vs && fragDict r
@@ -447,14 +452,55 @@ def tupKind (l : List (String × V)) : Nat :=
       else 1
   else 1
 
-/-- the constructor a canonical representation of a denotation must have (fragment) -/
+/-- the bucket of a member of a set, read off its denotation (`getBucket`) -/
+inductive BK where
+  | g | c | b | i | e
+  | r (names : List String)
+  deriving DecidableEq
+
+def bucketV : V → BK
+  | .num _ => .g
+  | .set _ => .g
+  | .tup l =>
+    match tupKind l with
+    | 2 => .c | 3 => .b | 4 => .i | 5 => .e
+    | _ => if l.isEmpty then .g else .r (l.map (·.1))
+
+def bkTag : BK → Nat
+  | .g => 8 | .c => 9 | .b => 10 | .i => 11 | .e => 12 | .r _ => 13
+
+/-- the constructor a canonical representation of a denotation must have -/
 def vtag : V → Nat
   | .num _ => 0
   | .tup l => tupKind l
   | .set [] => 6
-  | .set [.tup []] => 7
-  | .set (.tup l :: _) => (match tupKind l with | 2 => 9 | 3 => 10 | 4 => 11 | 5 => 12 | _ => 8)
-  | .set _ => 8
+  | .set (m :: r) =>
+    if decide (m :: r = [V.tup []]) then 7
+    else if r.all (fun x => decide (bucketV x = bucketV m)) then bkTag (bucketV m) else 14
+
+theorem vtag_set_uniform (ms : List V) (X : BK) (hne : ms ≠ []) (hnt : ms ≠ [V.tup []])
+    (h : ∀ v, v ∈ ms → bucketV v = X) : vtag (.set ms) = bkTag X := by
+  cases ms with
+  | nil => exact absurd rfl hne
+  | cons m r =>
+    simp only [vtag, hnt, decide_false, Bool.false_eq_true, if_false]
+    have hm := h m (by simp)
+    have : r.all (fun x => decide (bucketV x = bucketV m)) = true := by
+      rw [List.all_eq_true]
+      intro x hx
+      simp [h x (List.mem_cons_of_mem _ hx), hm]
+    rw [if_pos this, hm]
+
+theorem bucketV_unit : bucketV (.tup []) = .g := by simp [bucketV, tupKind]
+
+/-- for a bucket other than the generic one the set cannot be `{()}` -/
+theorem vtag_set_uniform' (ms : List V) (X : BK) (hne : ms ≠ []) (hX : X ≠ .g)
+    (h : ∀ v, v ∈ ms → bucketV v = X) : vtag (.set ms) = bkTag X := by
+  apply vtag_set_uniform ms X hne _ h
+  intro e
+  have := h (.tup []) (by rw [e]; simp)
+  rw [bucketV_unit] at this
+  exact hX this.symm
 
 theorem head_mk_mem (l : List V) (v : V) (r : List V) (h : mk l = v :: r) : v ∈ l := by
   have : v ∈ mk l := by rw [h]; simp
@@ -615,6 +661,158 @@ theorem wfDict_mem : ∀ (m : List (Rep × List Rep)) (kv : Rep × List Rep), wf
       exact ⟨hw.1.1.1.1, by intro e; simp only [] at e; rw [e] at hw; simp at hw, hw.1.1.2, hw.1.2⟩
     · exact wfDict_mem r kv hw.2 h
 
+/-! ### relations: rows as generic tuples -/
+
+def rowT (names : List String) (row : List Rep) : Rep := .gtuple (names.zip row)
+
+theorem denAttrs_zip : ∀ (names : List String) (row : List Rep),
+    denAttrs (names.zip row) = zipAttrs names (denList row)
+  | [], _ => by simp [denAttrs, zipAttrs]
+  | _ :: _, [] => by simp [denAttrs, zipAttrs, denList]
+  | n :: ns, x :: xs => by simp [denAttrs, zipAttrs, denList, denAttrs_zip ns xs]
+
+theorem den_rowT (names : List String) (row : List Rep) :
+    den (rowT names row) = V.mkTup (zipAttrs names (denList row)) := by
+  simp [rowT, den, denAttrs_zip]
+
+theorem denRows_eq : ∀ (names : List String) (rows : List (List Rep)),
+    denRows names rows = rows.map (fun row => den (rowT names row))
+  | _, [] => rfl
+  | names, row :: r => by simp [denRows, den_rowT, denRows_eq names r]
+
+theorem namesOf_zip : ∀ (names : List String) (row : List Rep), row.length = names.length →
+    namesOf (names.zip row) = names
+  | [], [], _ => rfl
+  | [], _ :: _, h => by simp at h
+  | _ :: _, [], h => by simp at h
+  | n :: ns, x :: xs, h => by
+    have := namesOf_zip ns xs (by simpa using h)
+    simp only [namesOf] at this
+    simp [namesOf, this]
+
+theorem wfAttrs_zip : ∀ (names : List String) (row : List Rep), wfList row = true → wfAttrs (names.zip row) = true
+  | [], _, _ => by simp [wfAttrs]
+  | _ :: _, [], _ => by simp [wfAttrs]
+  | n :: ns, x :: xs, h => by
+    simp only [wfList, Bool.and_eq_true] at h
+    simp [wfAttrs, h.1, wfAttrs_zip ns xs h.2]
+
+theorem wfRows_mem : ∀ (names : List String) (rows : List (List Rep)) (row : List Rep), wfRows names rows = true →
+    row ∈ rows → row.length = names.length ∧ wfList row = true ∧ specialisable (names.zip row) = false
+  | _, [], _, _, h => by simp at h
+  | names, r0 :: r, row, hw, h => by
+    simp only [wfRows, Bool.and_eq_true, beq_iff_eq, Bool.not_eq_true'] at hw
+    simp only [List.mem_cons] at h
+    rcases h with h | h
+    · subst h; exact ⟨hw.1.1.1, hw.1.1.2, hw.1.2⟩
+    · exact wfRows_mem names r row hw.2 h
+
+theorem wf_rowT (names : List String) (rows : List (List Rep)) (row : List Rep) (hn : names.Nodup)
+    (hw : wfRows names rows = true) (h : row ∈ rows) : wf (rowT names row) = true := by
+  obtain ⟨h1, h2, h3⟩ := wfRows_mem names rows row hw h
+  simp [rowT, wf, namesOf_zip names row h1, hn, wfAttrs_zip names row h2, h3]
+
+theorem insAttr_names (n : String) (v w : V) : ∀ (l l' : List (String × V)), l.map (·.1) = l'.map (·.1) →
+    (V.insAttr n v l).map (·.1) = (V.insAttr n w l').map (·.1)
+  | [], [], _ => by simp [V.insAttr]
+  | [], _ :: _, h => by simp at h
+  | _ :: _, [], h => by simp at h
+  | (m, a) :: r, (m', a') :: r', h => by
+    simp only [List.map_cons, List.cons.injEq] at h
+    obtain ⟨h1, h2⟩ := h
+    subst h1
+    simp only [V.insAttr]
+    split
+    · simp [h2]
+    · split
+      · simp [h2]
+      · simp [insAttr_names n v w r r' h2]
+
+theorem mkAttrs_names_congr : ∀ (l l' : List (String × V)), l.map (·.1) = l'.map (·.1) →
+    (mkAttrs l).map (·.1) = (mkAttrs l').map (·.1)
+  | [], [], _ => rfl
+  | [], _ :: _, h => by simp at h
+  | _ :: _, [], h => by simp at h
+  | (n, v) :: r, (n', v') :: r', h => by
+    simp only [List.map_cons, List.cons.injEq] at h
+    obtain ⟨h1, h2⟩ := h
+    subst h1
+    show (V.insAttr n v (mkAttrs r)).map (·.1) = (V.insAttr n v' (mkAttrs r')).map (·.1)
+    exact insAttr_names n v v' _ _ (mkAttrs_names_congr r r' h2)
+
+theorem zipAttrs_names : ∀ (names : List String) (ds : List V), ds.length = names.length →
+    (zipAttrs names ds).map (·.1) = names
+  | [], [], _ => rfl
+  | [], _ :: _, h => by simp at h
+  | _ :: _, [], h => by simp at h
+  | n :: ns, d :: ds, h => by simp [zipAttrs, zipAttrs_names ns ds (by simpa using h)]
+
+/-- the sorted heading of a relation with these column names -/
+def headingOf (names : List String) : List String :=
+  (mkAttrs (zipAttrs names (names.map (fun _ => V.num 0)))).map (·.1)
+
+theorem bucketV_rowT (names : List String) (rows : List (List Rep)) (row : List Rep) (hn : names.Nodup)
+    (hne : names ≠ []) (hw : wfRows names rows = true) (h : row ∈ rows) :
+    bucketV (den (rowT names row)) = .r (headingOf names) := by
+  obtain ⟨h1, _, _⟩ := wfRows_mem names rows row hw h
+  have hk := tupKind_gtuple (names.zip row) (wf_rowT names rows row hn hw h)
+  rw [den_rowT, mkTup_eq]
+  rw [denAttrs_zip] at hk
+  simp only [bucketV, hk]
+  have hnames : (mkAttrs (zipAttrs names (denList row))).map (·.1) = headingOf names := by
+    apply mkAttrs_names_congr
+    rw [zipAttrs_names _ _ (by rw [denList_length]; exact h1), zipAttrs_names _ _ (by simp)]
+  have hnn : mkAttrs (zipAttrs names (denList row)) ≠ [] := by
+    cases names with
+    | nil => exact absurd rfl hne
+    | cons n ns =>
+      cases row with
+      | nil => simp at h1
+      | cons x xs =>
+        simp only [denList, zipAttrs, mkAttrs, List.foldr_cons]
+        exact insAttr_ne_nil _ _ _
+  have : (mkAttrs (zipAttrs names (denList row))).isEmpty = false := by
+    cases hh : mkAttrs (zipAttrs names (denList row)) with
+    | nil => exact absurd hh hnn
+    | cons _ _ => rfl
+  simp [this, hnames]
+
+/-! ### members of each set representation have one bucket -/
+
+theorem bucketV_char (i c : Int) (h : inRune c = true) : bucketV (vpair "@char" (.num i) (.num c)) = .c := by
+  simp [bucketV, vpair, tupKind, lookupV, numOfV, okBy, h]
+theorem bucketV_byte (i c : Int) (h : inByte c = true) : bucketV (vpair "@byte" (.num i) (.num c)) = .b := by
+  simp [bucketV, vpair, tupKind, lookupV, numOfV, okBy, h]
+theorem bucketV_item (i : Int) (x : V) : bucketV (vpair "@item" (.num i) x) = .i := by
+  simp [bucketV, vpair, tupKind, lookupV, numOfV, okBy]
+theorem bucketV_value (k x : V) : bucketV (vpair "@value" k x) = .e := by
+  simp [bucketV, vpair, tupKind, lookupV]
+
+theorem strMembers_form : ∀ (s : List Int) (off : Int) (v : V), v ∈ strMembers off s →
+    ∃ i c, v = vpair "@char" (.num i) (.num c) ∧ 0 ≤ c ∧ c ∈ s
+  | [], _, _, h => by simp [strMembers] at h
+  | d :: r, off, v, h => by
+    simp only [strMembers] at h
+    by_cases hd : d < 0
+    · simp only [hd, if_true] at h
+      obtain ⟨i, c, e, h1, h2⟩ := strMembers_form r (off + 1) v h
+      exact ⟨i, c, e, h1, List.mem_cons_of_mem _ h2⟩
+    · simp only [hd, if_false, List.mem_cons] at h
+      rcases h with h | h
+      · exact ⟨off, d, h, by omega, by simp⟩
+      · obtain ⟨i, c, e, h1, h2⟩ := strMembers_form r (off + 1) v h
+        exact ⟨i, c, e, h1, List.mem_cons_of_mem _ h2⟩
+
+theorem bytesMembers_form : ∀ (b : List Int) (off : Int) (v : V), v ∈ bytesMembers off b →
+    ∃ i c, v = vpair "@byte" (.num i) (.num c) ∧ c ∈ b
+  | [], _, _, h => by simp [bytesMembers] at h
+  | d :: r, off, v, h => by
+    simp only [bytesMembers, List.mem_cons] at h
+    rcases h with h | h
+    · exact ⟨off, d, h, by simp⟩
+    · obtain ⟨i, c, e, h2⟩ := bytesMembers_form r (off + 1) v h
+      exact ⟨i, c, e, List.mem_cons_of_mem _ h2⟩
+
 theorem vtag_den (a : Rep) (hw : wf a = true) (hf : frag a = true) : vtag (den a) = ctorTag a := by
   cases a <;> simp [frag] at hf
   case num n => simp [den, vtag, ctorTag]
@@ -634,85 +832,110 @@ theorem vtag_den (a : Rep) (hw : wf a = true) (hf : frag a = true) : vtag (den a
   case true_ => simp [den, vtag, ctorTag]
   case str s off holes =>
     rw [den_str]
-    simp only [wf, Bool.and_eq_true] at hw
-    cases s with
-    | nil => simp [headNonneg] at hw
-    | cons c r =>
-      have hc : ¬ c < 0 := by
-        have := hw.1.1.1; simp [headNonneg] at this; omega
-      have hr : inRune c = true := by
-        have := hw.1.2; simp at this
-        simp [inRune]; omega
-      simp [strMembers, hc, vtag, ctorTag, vpair, tupKind, lookupV, numOfV, okBy, hr]
+    have hne := strMembers_ne_nil off s (by simp only [wf, Bool.and_eq_true] at hw; exact hw.1.1.1)
+    have hr : ∀ c, c ∈ s → c ≤ 0x10FFFF := by
+      simp only [wf, Bool.and_eq_true] at hw
+      intro c hc
+      have := List.all_eq_true.1 hw.1.2 c hc
+      simp at this; exact this.2
+    rw [vtag_set_uniform' _ .c hne (by simp)]
+    · rfl
+    · intro v hv
+      obtain ⟨i, c, e, h0, hc⟩ := strMembers_form s off v hv
+      subst e
+      exact bucketV_char i c (by simp [inRune]; exact ⟨h0, hr c hc⟩)
   case bytes b off =>
     rw [den_bytes]
-    simp only [wf, Bool.and_eq_true] at hw
-    cases b with
-    | nil => simp at hw
-    | cons c r =>
-      have hr : inByte c = true := by have := hw.2; simp at this; exact this.1
-      simp [bytesMembers, vtag, ctorTag, vpair, tupKind, lookupV, numOfV, okBy, hr]
+    simp only [wf, Bool.and_eq_true, Bool.not_eq_true', List.isEmpty_eq_false_iff] at hw
+    have hne : bytesMembers off b ≠ [] := by
+      cases b with
+      | nil => exact absurd rfl hw.1
+      | cons c r => simp [bytesMembers]
+    rw [vtag_set_uniform' _ .b hne (by simp)]
+    · rfl
+    · intro v hv
+      obtain ⟨i, c, e, hc⟩ := bytesMembers_form b off v hv
+      subst e
+      exact bucketV_byte i c (List.all_eq_true.1 hw.2 c hc)
   case array vs off c =>
     rw [den_array]
     simp only [wf, Bool.and_eq_true] at hw
-    cases vs with
-    | nil => simp [headSome] at hw
-    | cons o r =>
-      cases o with
-      | none => simp [headSome] at hw
-      | some x => simp [denOpts, seqM, vtag, ctorTag, vpair, tupKind, lookupV, numOfV, okBy]
+    have hne : seqM "@item" off (denOpts vs) ≠ [] := by
+      cases vs with
+      | nil => simp [headSome] at hw
+      | cons o r =>
+        cases o with
+        | none => simp [headSome] at hw
+        | some x => simp [denOpts, seqM]
+    rw [vtag_set_uniform' _ .i hne (by simp)]
+    · rfl
+    · intro v hv
+      obtain ⟨i, x, e, _⟩ := seqM_index "@item" _ off v hv
+      subst e
+      exact bucketV_item i x
   case dict m =>
     simp only [wf, Bool.and_eq_true, Bool.not_eq_true', decide_eq_true_eq] at hw
     obtain ⟨⟨hne, hwd⟩, _⟩ := hw
     have hm : m ≠ [] := by intro e; subst e; simp at hne
     have hen := entries_ne_nil m hm (fun kv hkv => (wfDict_mem m kv hwd hkv).2.1)
     simp only [den, V.mkSet, ctorTag, denDict_eq]
-    cases hmk : mk ((entries m).map entryDen) with
-    | nil =>
-      have := (mk_eq_nil _).1 hmk
-      simp at this; exact absurd this hen
-    | cons v r =>
-      have hv := head_mk_mem _ _ _ hmk
-      obtain ⟨e, _, he⟩ := List.mem_map.1 hv
+    have hne' : mk ((entries m).map entryDen) ≠ [] := by
+      intro h; have := (mk_eq_nil _).1 h; simp at this; exact hen this
+    rw [vtag_set_uniform' _ .e hne' (by simp)]
+    · rfl
+    · intro v hv
+      obtain ⟨e, _, he⟩ := List.mem_map.1 ((mem_mk _ _).1 hv)
       subst he
-      simp [entryDen, vtag, vpair, tupKind, lookupV]
+      exact bucketV_value _ _
+  case relation names rows =>
+    simp only [wf, Bool.and_eq_true, Bool.not_eq_true', decide_eq_true_eq] at hw
+    obtain ⟨⟨⟨⟨hnn, hnd⟩, hrn⟩, hwr⟩, _⟩ := hw
+    have hne : names ≠ [] := by intro e; subst e; simp at hnn
+    have hre : rows ≠ [] := by intro e; subst e; simp at hrn
+    simp only [den, V.mkSet, ctorTag, denRows_eq]
+    have hne' : mk (rows.map (fun row => den (rowT names row))) ≠ [] := by
+      intro h; have := (mk_eq_nil _).1 h; simp at this; exact hre this
+    rw [vtag_set_uniform' _ (.r (headingOf names)) hne' (by simp)]
+    · rfl
+    · intro v hv
+      obtain ⟨row, hrow, he⟩ := List.mem_map.1 ((mem_mk _ _).1 hv)
+      subst he
+      exact bucketV_rowT names rows row hnd hne hwr hrow
   case generic xs =>
     simp only [wf, Bool.and_eq_true, Bool.not_eq_true', decide_eq_true_eq] at hw
     obtain ⟨⟨⟨⟨hne, hwl⟩, hgm⟩, hnd⟩, hnt⟩ := hw
     simp only [den, V.mkSet, ctorTag]
-    cases hm : mk (denList xs) with
-    | nil =>
-      have := (mk_eq_nil _).1 hm
+    have hne' : mk (denList xs) ≠ [] := by
+      intro h
+      have := (mk_eq_nil _).1 h
       cases xs with
       | nil => simp at hne
       | cons x r => simp [denList] at this
-    | cons v r =>
-      have hv : v ∈ denList xs := head_mk_mem _ _ _ hm
-      obtain ⟨x, hx, e⟩ := (mem_denList xs v).1 hv
-      have hg : genericMember x = true := by
-        have := List.all_eq_true.1 hgm x hx; exact this
+    have hnt' : mk (denList xs) ≠ [V.tup []] := by
+      intro hm
+      have hlen : (mk (denList xs)).length = (denList xs).length := length_mk_of_nodup _ hnd
+      rw [hm] at hlen
+      have hv : V.tup [] ∈ denList xs := head_mk_mem _ _ _ hm
+      have : denList xs = [V.tup []] := by
+        cases hd : denList xs with
+        | nil => rw [hd] at hlen; simp at hlen
+        | cons d ds =>
+          rw [hd] at hlen hv
+          cases ds with
+          | nil =>
+            have : V.tup [] = d := by simpa using hv
+            rw [← this]
+          | cons _ _ => simp at hlen
+      simp [this] at hnt
+    rw [vtag_set_uniform _ .g hne' hnt']
+    · rfl
+    · intro v hv
+      obtain ⟨x, hx, e⟩ := (mem_denList xs v).1 ((mem_mk _ _).1 hv)
+      have hg : genericMember x = true := List.all_eq_true.1 hgm x hx
       rcases genericMember_den hg with ⟨n, hn⟩ | ⟨l, hl⟩ | ht
-      · rw [← e, hn]; simp [vtag]
-      · rw [← e, hl]; simp [vtag]
-      · -- v = () : then the set is not {()} because members are distinct and the list is not [()]
-        rw [← e, ht]
-        cases r with
-        | cons w r' => simp [vtag, tupKind]
-        | nil =>
-          exfalso
-          have hlen : (mk (denList xs)).length = (denList xs).length := length_mk_of_nodup _ hnd
-          rw [hm] at hlen
-          have : denList xs = [V.tup []] := by
-            cases hd : denList xs with
-            | nil => rw [hd] at hlen; simp at hlen
-            | cons d ds =>
-              rw [hd] at hlen hv
-              cases ds with
-              | nil =>
-                have : v = d := by simpa using hv
-                rw [← this, ← e, ht]
-              | cons _ _ => simp at hlen
-          simp [this] at hnt
+      · rw [← e, hn]; rfl
+      · rw [← e, hl]; rfl
+      · rw [← e, ht]; exact bucketV_unit
 
 /-! ### strings and byte arrays: canonical forms are determined by the denotation -/
 
@@ -1870,6 +2093,23 @@ theorem asEntry_genericMember (y : Rep) (h : genericMember y = true) : asEntry y
     | cons p r => simp [genericMember, isSet] at h
 
 /-- `Dict.Equal` against a canonical set of another representation is false -/
+theorem asEntry_rowT (names : List String) (row : List Rep) (h : specialisable (names.zip row) = false) :
+    asEntry (rowT names row) = none := by
+  unfold rowT asEntry
+  by_cases hl : (names.zip row).length = 2
+  · simp only [hl, if_true]
+    unfold specialisable at h
+    simp only [hl, beq_self_eq_true, Bool.true_and] at h
+    cases h1 : lookupAttr "@" (names.zip row) with
+    | none => rfl
+    | some i =>
+      rw [h1] at h
+      simp only [Bool.or_eq_false_iff] at h
+      cases h2 : lookupAttr "@value" (names.zip row) with
+      | none => rfl
+      | some v => rw [h2] at h; simp at h
+  · simp only [hl, ↓reduceIte]
+
 theorem dict_equal_nondict (m : List (Rep × List Rep)) (b : Rep) (wb : wf b = true) (fb : frag b = true)
     (hb : ∀ m', b ≠ .dict m') : equal (.dict m) b = false := by
   cases b <;> simp [frag] at fb
@@ -1882,6 +2122,16 @@ theorem dict_equal_nondict (m : List (Rep × List Rep)) (b : Rep) (wb : wf b = t
   case empty => simp [equal, equalG, isSet, count]
   case true_ => simp [equal, equalG, isSet, count, members, members1, asEntry]
   case dict m' => exact absurd rfl (hb m')
+  case relation names rows =>
+    simp only [wf, Bool.and_eq_true, Bool.not_eq_true', decide_eq_true_eq] at wb
+    obtain ⟨⟨⟨_, hrn⟩, hwr⟩, _⟩ := wb
+    cases rows with
+    | nil => simp at hrn
+    | cons r0 r =>
+      obtain ⟨_, _, h3⟩ := wfRows_mem names (r0 :: r) r0 hwr (by simp)
+      have := asEntry_rowT names r0 h3
+      simp only [rowT] at this
+      simp [equal, equalG, members, members1, this]
   case generic ys =>
     simp only [wf, Bool.and_eq_true, Bool.not_eq_true', decide_eq_true_eq] at wb
     obtain ⟨⟨⟨⟨hne, _⟩, hgm⟩, _⟩, _⟩ := wb
@@ -1910,6 +2160,374 @@ theorem dict_equal_nondict (m : List (Rep × List Rep)) (b : Rep) (wb : wf b = t
       cases o with
       | none => simp [headSome] at wb
       | some x => simp [equal, equalG, members, members1, List.zipIdx_cons, asEntry]
+
+/-! ### relations -/
+
+theorem fragRows_mem : ∀ (rows : List (List Rep)) (row : List Rep), fragRows rows = true → row ∈ rows →
+    fragPlainList row = true
+  | [], _, _, h => by simp at h
+  | r0 :: r, row, hf, h => by
+    simp only [fragRows, Bool.and_eq_true] at hf
+    simp only [List.mem_cons] at h
+    rcases h with h | h
+    · subst h; exact hf.1
+    · exact fragRows_mem r row hf.2 h
+
+theorem fragAttrs_zip : ∀ (names : List String) (row : List Rep), fragPlainList row = true →
+    fragAttrs (names.zip row) = true
+  | [], _, _ => by simp [fragAttrs]
+  | _ :: _, [], _ => by simp [fragAttrs]
+  | n :: ns, x :: xs, h => by
+    simp only [fragPlainList, Bool.and_eq_true] at h
+    simp [fragAttrs, h.1.1, h.1.2, fragAttrs_zip ns xs h.2]
+
+theorem depthAttrs_zip : ∀ (names : List String) (row : List Rep), depthAttrs (names.zip row) ≤ depthList row
+  | [], _ => by simp [depthAttrs]
+  | _ :: _, [] => by simp [depthAttrs]
+  | n :: ns, x :: xs => by
+    have := depthAttrs_zip ns xs
+    simp [depthAttrs, depthList]; omega
+
+theorem depth_mem_rows : ∀ (rows : List (List Rep)) (row : List Rep), row ∈ rows → depthList row ≤ depthRows rows
+  | [], _, h => by simp at h
+  | r0 :: r, row, h => by
+    simp only [List.mem_cons] at h
+    rcases h with h | h
+    · subst h; simp [depthRows]
+    · have := depth_mem_rows r row h
+      simp [depthRows]; omega
+
+theorem depth_rowT (names : List String) (row : List Rep) : depth (rowT names row) ≤ depthList row + 1 := by
+  have := depthAttrs_zip names row
+  unfold rowT
+  cases h : names.zip row with
+  | nil => simp [depth]
+  | cons p r => rw [h] at this; simp only [depth]; omega
+
+theorem xorRow_eq : ∀ (names : List String) (row : List Rep) (s : HV),
+    xorRow true names row s = xorAttrs true (names.zip row) s
+  | [], _, _ => by simp [xorRow, xorAttrs]
+  | _ :: _, [], _ => by simp [xorRow, xorAttrs]
+  | n :: ns, x :: xs, s => by simp [xorRow, xorAttrs, xorRow_eq ns xs s]
+
+theorem xorRows_eq_pairs : ∀ (names : List String) (rows : List (List Rep)) (s : HV),
+    xorRows true names rows s = xorPairs (rows.map (fun row => (rowT names row, s)))
+  | _, [], _ => rfl
+  | names, row :: r, s => by
+    simp only [xorRows, List.map_cons, xorPairs, xorRows_eq_pairs names r s, xorRow_eq]
+    simp [rowT, hashG]
+
+/-- everything the main induction needs to know about a canonical fragment relation -/
+theorem relation_facts (n : Nat) (names : List String) (rows : List (List Rep))
+    (hd : depth (.relation names rows) < n + 1) (hw : wf (.relation names rows) = true)
+    (hf : frag (.relation names rows) = true) :
+    names ≠ [] ∧ names.Nodup ∧ rows ≠ [] ∧ wfRows names rows = true ∧ (denRows names rows).Nodup ∧
+    fragRows rows = true ∧
+    (∀ row, row ∈ rows → depth (rowT names row) < n ∧ wf (rowT names row) = true ∧
+      frag (rowT names row) = true ∧ row.length = names.length ∧ fragPlainList row = true ∧ wfList row = true ∧
+      ∀ x, x ∈ row → depth x + 1 < n) := by
+  simp only [wf, Bool.and_eq_true, Bool.not_eq_true', decide_eq_true_eq] at hw
+  obtain ⟨⟨⟨⟨hnn, hnd⟩, hrn⟩, hwr⟩, hdn⟩ := hw
+  have hfr : fragRows rows = true := by simpa [frag] using hf
+  refine ⟨by intro e; subst e; simp at hnn, hnd, by intro e; subst e; simp at hrn, hwr, hdn, hfr, ?_⟩
+  intro row hrow
+  obtain ⟨h1, h2, _⟩ := wfRows_mem names rows row hwr hrow
+  have d1 := depth_mem_rows rows row hrow
+  have d2 := depth_rowT names row
+  simp only [depth] at hd
+  refine ⟨by omega, wf_rowT names rows row hnd hwr hrow, ?_, h1, fragRows_mem rows row hfr hrow, h2, ?_⟩
+  · simpa [rowT, frag] using fragAttrs_zip names row (fragRows_mem rows row hfr hrow)
+  · intro x hx
+    have := depth_mem_list row x hx
+    omega
+
+def rowTs (names : List String) (rows : List (List Rep)) : List Rep := rows.map (rowT names)
+
+theorem denRows_rowTs (names : List String) (rows : List (List Rep)) :
+    denRows names rows = (rowTs names rows).map den := by
+  rw [denRows_eq]; simp [rowTs, List.map_map, Function.comp_def]
+
+theorem xorRows_eq_mk (names : List String) (rows : List (List Rep)) (s : HV)
+    (hf : ∀ row, row ∈ rows → frag (rowT names row) = true)
+    (hn : ((rowTs names rows).map (fun t => atomAt t s)).Nodup) :
+    xorRows true names rows s = mk ((rowTs names rows).map (fun t => atomAt t s)) := by
+  rw [xorRows_eq_pairs, xorPairs_eq_mk]
+  · simp [rowTs, List.map_map, Function.comp_def]
+  · intro p hp
+    obtain ⟨row, hrow, e⟩ := List.mem_map.1 hp
+    subst e
+    exact ⟨hf row hrow, rfl⟩
+  · simpa [rowTs, List.map_map, Function.comp_def] using hn
+
+/-- a generic core for lists of plain fragment values hashed under one seed -/
+theorem seeded_core (xs ys : List Rep) (s : HV)
+    (hfx : ∀ x, x ∈ xs → frag x = true ∧ plain x = true) (hfy : ∀ x, x ∈ ys → frag x = true ∧ plain x = true)
+    (H : ∀ x, x ∈ xs ++ ys → ∀ y, y ∈ xs ++ ys → (hashG true x s = hashG true y s ↔ den x = den y)) :
+    (mk (xs.map (fun t => atomAt t s)) = mk (ys.map (fun t => atomAt t s)) ↔ mk (xs.map den) = mk (ys.map den)) := by
+  rw [mk_eq_iff, mk_eq_iff]
+  apply map_mem_transfer
+  intro x hx y hy
+  have := H x (by simp [hx]) y (by simp [hy])
+  rw [hash_singleton x (hfx x hx).1 (hfx x hx).2, hash_singleton y (hfy y hy).1 (hfy y hy).2] at this
+  simpa using this
+
+theorem seeded_nodup (xs : List Rep) (s : HV) (hfx : ∀ x, x ∈ xs → frag x = true ∧ plain x = true)
+    (hn : (xs.map den).Nodup)
+    (H : ∀ x, x ∈ xs → ∀ y, y ∈ xs → (hashG true x s = hashG true y s ↔ den x = den y)) :
+    (xs.map (fun t => atomAt t s)).Nodup := by
+  apply nodup_map_of (fun t => atomAt t s) den xs _ hn
+  intro x hx y hy e
+  have := H x hx y hy
+  rw [hash_singleton x (hfx x hx).1 (hfx x hx).2, hash_singleton y (hfx y hy).1 (hfx y hy).2] at this
+  exact this.1 (by rw [e])
+
+/-! #### `Relation.EqualRelation`: rows hashed as `Values` in sorted-name order -/
+
+def getDen (names : List String) (row : List Rep) (n : String) : Option V := (rowGet names row n).map den
+
+theorem rowGet_mem (names : List String) (row : List Rep) (n : String) (v : Rep) (h : rowGet names row n = some v) :
+    v ∈ row := by
+  have := lookupAttr_mem _ _ _ h
+  exact (List.of_mem_zip this).2
+
+theorem rowGet_isSome (names : List String) (row : List Rep) (hl : row.length = names.length) (n : String) :
+    (rowGet names row n).isSome = true ↔ n ∈ names := by
+  unfold rowGet
+  cases h : lookupAttr n (names.zip row) with
+  | none =>
+    have := (lookupAttr_none_iff _ _).1 h
+    rw [namesOf_zip names row hl] at this
+    simp [this]
+  | some v =>
+    have := lookupAttr_mem _ _ _ h
+    simp [(List.of_mem_zip this).1]
+
+/-- the row denotes the map name ↦ denotation of the cell -/
+theorem den_rowT_eq_iff (ns ns' : List String) (row row' : List Rep) :
+    den (rowT ns row) = den (rowT ns' row') ↔ ∀ k, getDen ns row k = getDen ns' row' k := by
+  simp only [rowT, den, mkTup_eq_iff, lookupV_denAttrs, getDen, rowGet]
+
+def chainStep (names : List String) (row : List Rep) (h : HV) (n : String) : HV :=
+  match rowGet names row n with
+  | some v => hashG true v h
+  | none => h
+
+theorem rowChain_eq (names S : List String) (row : List Rep) :
+    rowChain true names S row = S.foldl (chainStep names row) [] := rfl
+
+/-- cells of two rows: plain fragment values whose hash is injective under every seed -/
+def CellIH (row row' : List Rep) : Prop :=
+  (∀ v, v ∈ row ++ row' → frag v = true ∧ plain v = true) ∧
+  ∀ v, v ∈ row ++ row' → ∀ v', v' ∈ row ++ row' → ∀ S S' : HV,
+    (hashG true v S = hashG true v' S' ↔ (S = S' ∧ den v = den v'))
+
+theorem chain_inj (ns ns' : List String) (row row' : List Rep) (H : CellIH row row') :
+    ∀ (S : List String) (h h' : HV),
+      (∀ n, n ∈ S → (rowGet ns row n).isSome = true ∧ (rowGet ns' row' n).isSome = true) →
+      (S.foldl (chainStep ns row) h = S.foldl (chainStep ns' row') h' ↔
+        (h = h' ∧ ∀ n, n ∈ S → getDen ns row n = getDen ns' row' n))
+  | [], h, h', _ => by simp
+  | n :: S, h, h', hs => by
+    obtain ⟨g1, g2⟩ := hs n (by simp)
+    cases e1 : rowGet ns row n with
+    | none => rw [e1] at g1; cases g1
+    | some v =>
+      cases e2 : rowGet ns' row' n with
+      | none => rw [e2] at g2; cases g2
+      | some v' =>
+        have hv : v ∈ row ++ row' := List.mem_append.2 (Or.inl (rowGet_mem _ _ _ _ e1))
+        have hv' : v' ∈ row ++ row' := List.mem_append.2 (Or.inr (rowGet_mem _ _ _ _ e2))
+        simp only [List.foldl_cons]
+        rw [chain_inj ns ns' row row' H S _ _ (fun m hm => hs m (List.mem_cons_of_mem _ hm))]
+        simp only [chainStep, e1, e2, H.2 v hv v' hv' h h', List.mem_cons, forall_eq_or_imp, getDen,
+          Option.map_some, Option.some.injEq]
+        constructor
+        · rintro ⟨⟨a, b⟩, c⟩; exact ⟨a, b, c⟩
+        · rintro ⟨a, b, c⟩; exact ⟨⟨a, b⟩, c⟩
+
+theorem chain_singleton (ns : List String) (row : List Rep)
+    (hf : ∀ v, v ∈ row → frag v = true ∧ plain v = true) :
+    ∀ (S : List String) (h : HV), S ≠ [] → (∀ n, n ∈ S → (rowGet ns row n).isSome = true) →
+      ∃ A, S.foldl (chainStep ns row) h = [A]
+  | [], _, hne, _ => absurd rfl hne
+  | [n], h, _, hs => by
+    cases e1 : rowGet ns row n with
+    | none => have := hs n (by simp); rw [e1] at this; cases this
+    | some v =>
+      have hv := hf v (rowGet_mem _ _ _ _ e1)
+      exact ⟨atomAt v h, by simp [chainStep, e1, hash_singleton v hv.1 hv.2]⟩
+  | n :: m :: S, h, _, hs => by
+    simp only [List.foldl_cons]
+    exact chain_singleton ns row hf (m :: S) _ (by simp) (fun k hk => hs k (List.mem_cons_of_mem _ hk))
+
+theorem foldr_hxor_singletons {α} (c : α → V) : ∀ (l : List α) (f : α → HV), (∀ x, x ∈ l → f x = [c x]) →
+    (l.map c).Nodup → l.foldr (fun x acc => hxor (f x) acc) [] = mk (l.map c)
+  | [], _, _, _ => rfl
+  | x :: r, f, hf, hn => by
+    simp only [List.map_cons, List.nodup_cons] at hn
+    simp only [List.foldr_cons, List.map_cons]
+    rw [foldr_hxor_singletons c r f (fun y hy => hf y (List.mem_cons_of_mem _ hy)) hn.2, hf x (by simp)]
+    have hx : c x ∉ mk (r.map c) := fun h => hn.1 ((mem_mk _ _).1 h)
+    rw [hxor, symdiff_singleton _ _ (sorted_mk _) hx]
+    rfl
+
+/-- a relation body as (heading, row) pairs, its `Values` hash atom and its row denotation -/
+def relPairs (ns : List String) (rows : List (List Rep)) : List (List String × List Rep) := rows.map (fun r => (ns, r))
+def chainAtom (p : List String × List Rep) : V := (rowChain true p.1 (sortNames p.1) p.2).headD (.num 0)
+def rowDen (p : List String × List Rep) : V := den (rowT p.1 p.2)
+
+/-- what is known about the rows of a canonical fragment relation -/
+structure RelOk (ns : List String) (rows : List (List Rep)) : Prop where
+  nne : ns ≠ []
+  nnd : ns.Nodup
+  rne : rows ≠ []
+  len : ∀ row, row ∈ rows → row.length = ns.length
+  cells : ∀ row, row ∈ rows → ∀ v, v ∈ row → frag v = true ∧ plain v = true
+  dnd : (denRows ns rows).Nodup
+
+theorem sortNames_mem (ns : List String) (x : String) : x ∈ sortNames ns ↔ x ∈ ns := mem_sortStrs ns x
+
+theorem chain_is_singleton (ns : List String) (rows : List (List Rep)) (ok : RelOk ns rows) (row : List Rep)
+    (hr : row ∈ rows) : rowChain true ns (sortNames ns) row = [chainAtom (ns, row)] := by
+  have hne : sortNames ns ≠ [] := by
+    intro e
+    cases hns : ns with
+    | nil => exact ok.nne hns
+    | cons n r =>
+      have : n ∈ sortNames ns := (sortNames_mem ns n).2 (by rw [hns]; simp)
+      rw [e] at this; simp at this
+  obtain ⟨A, hA⟩ := chain_singleton ns row (ok.cells row hr) (sortNames ns) [] hne
+    (fun n hn => (rowGet_isSome ns row (ok.len row hr) n).2 ((sortNames_mem ns n).1 hn))
+  rw [rowChain_eq] at *
+  simp [chainAtom, rowChain_eq, hA]
+
+/-- for rows of relations with the same set of column names: same `Values` hash iff same row denotation -/
+theorem chainAtom_iff (ns ns' : List String) (rows rows' : List (List Rep)) (ok : RelOk ns rows) (ok' : RelOk ns' rows')
+    (hnames : ∀ x, x ∈ ns ↔ x ∈ ns') (row row' : List Rep) (hr : row ∈ rows) (hr' : row' ∈ rows')
+    (H : CellIH row row') : chainAtom (ns, row) = chainAtom (ns', row') ↔ rowDen (ns, row) = rowDen (ns', row') := by
+  have hS : sortNames ns = sortNames ns' := (sortStrs_eq_iff ns ns' ok.nnd ok'.nnd).2 hnames
+  have c1 := chain_is_singleton ns rows ok row hr
+  have c2 := chain_is_singleton ns' rows' ok' row' hr'
+  have hci := chain_inj ns ns' row row' H (sortNames ns) [] [] (fun n hn =>
+    ⟨(rowGet_isSome ns row (ok.len row hr) n).2 ((sortNames_mem ns n).1 hn),
+     (rowGet_isSome ns' row' (ok'.len row' hr') n).2 ((hnames n).1 ((sortNames_mem ns n).1 hn))⟩)
+  have h1 : chainAtom (ns, row) = chainAtom (ns', row') ↔
+      rowChain true ns (sortNames ns) row = rowChain true ns' (sortNames ns') row' := by
+    rw [c1, c2]; simp
+  rw [h1, rowChain_eq, rowChain_eq, ← hS, hci]
+  simp only [rowDen, den_rowT_eq_iff, true_and]
+  constructor
+  · intro h k
+    by_cases hk : k ∈ ns
+    · exact h k ((sortNames_mem ns k).2 hk)
+    · have e1 : getDen ns row k = none := by
+        have : ¬ (rowGet ns row k).isSome = true := fun e => hk ((rowGet_isSome ns row (ok.len row hr) k).1 e)
+        cases hh : rowGet ns row k with
+        | none => simp [getDen, hh]
+        | some _ => rw [hh] at this; simp at this
+      have e2 : getDen ns' row' k = none := by
+        have : ¬ (rowGet ns' row' k).isSome = true := fun e =>
+          hk ((hnames k).2 ((rowGet_isSome ns' row' (ok'.len row' hr') k).1 e))
+        cases hh : rowGet ns' row' k with
+        | none => simp [getDen, hh]
+        | some _ => rw [hh] at this; simp at this
+      rw [e1, e2]
+  · intro h k _; exact h k
+
+theorem rowsXor_eq_mk (ns : List String) (rows : List (List Rep)) (ok : RelOk ns rows)
+    (hn : ((relPairs ns rows).map chainAtom).Nodup) :
+    rowsXor true ns rows = mk ((relPairs ns rows).map chainAtom) := by
+  unfold rowsXor
+  have := foldr_hxor_singletons (fun row => chainAtom (ns, row)) rows
+    (fun row => rowChain true ns (sortNames ns) row) (fun row hr => chain_is_singleton ns rows ok row hr)
+    (by simpa [relPairs, List.map_map, Function.comp_def] using hn)
+  simpa [relPairs, List.map_map, Function.comp_def] using this
+
+theorem denRows_relPairs (ns : List String) (rows : List (List Rep)) :
+    denRows ns rows = (relPairs ns rows).map rowDen := by
+  rw [denRows_eq]; simp [relPairs, rowDen, List.map_map, Function.comp_def]
+
+/-- names of a row's denotation: two rows with the same denotation have the same column names -/
+theorem names_of_rowDen (ns ns' : List String) (row row' : List Rep) (hl : row.length = ns.length)
+    (hl' : row'.length = ns'.length) (h : rowDen (ns, row) = rowDen (ns', row')) : ∀ x, x ∈ ns ↔ x ∈ ns' := by
+  intro x
+  have := (den_rowT_eq_iff ns ns' row row').1 h x
+  rw [← rowGet_isSome ns row hl x, ← rowGet_isSome ns' row' hl' x]
+  simp only [getDen] at this
+  cases h1 : rowGet ns row x <;> cases h2 : rowGet ns' row' x <;> simp [h1, h2] at this ⊢
+
+/-- `Relation.Equal` on canonical fragment relations is equality of denotations -/
+theorem relation_equal_iff (ns ns' : List String) (rows rows' : List (List Rep)) (ok : RelOk ns rows)
+    (ok' : RelOk ns' rows')
+    (H : ∀ r1, r1 ∈ rows ++ rows' → ∀ r2, r2 ∈ rows ++ rows' → CellIH r1 r2) :
+    equal (.relation ns rows) (.relation ns' rows') = true ↔ mk (denRows ns rows) = mk (denRows ns' rows') := by
+  -- within one relation: atoms are distinct
+  have nd1 : ((relPairs ns rows).map chainAtom).Nodup := by
+    apply nodup_map_of chainAtom rowDen
+    · intro p hp q hq e
+      obtain ⟨r1, h1, rfl⟩ := List.mem_map.1 hp
+      obtain ⟨r2, h2, rfl⟩ := List.mem_map.1 hq
+      exact (chainAtom_iff ns ns rows rows ok ok (fun _ => Iff.rfl) r1 r2 h1 h2
+        (H r1 (by simp [h1]) r2 (by simp [h2]))).1 e
+    · rw [← denRows_relPairs]; exact ok.dnd
+  have nd2 : ((relPairs ns' rows').map chainAtom).Nodup := by
+    apply nodup_map_of chainAtom rowDen
+    · intro p hp q hq e
+      obtain ⟨r1, h1, rfl⟩ := List.mem_map.1 hp
+      obtain ⟨r2, h2, rfl⟩ := List.mem_map.1 hq
+      exact (chainAtom_iff ns' ns' rows' rows' ok' ok' (fun _ => Iff.rfl) r1 r2 h1 h2
+        (H r1 (by simp [h1]) r2 (by simp [h2]))).1 e
+    · rw [← denRows_relPairs]; exact ok'.dnd
+  have hX := rowsXor_eq_mk ns rows ok nd1
+  have hX' := rowsXor_eq_mk ns' rows' ok' nd2
+  have hXne : (rowsXor true ns rows).isEmpty = false := by
+    rw [hX]
+    cases hh : mk ((relPairs ns rows).map chainAtom) with
+    | nil =>
+      have := (mk_eq_nil _).1 hh
+      simp [relPairs] at this
+      exact absurd this ok.rne
+    | cons _ _ => rfl
+  -- with the same column names the transfer between atoms and row denotations works
+  have transfer : (∀ x, x ∈ ns ↔ x ∈ ns') →
+      (mk ((relPairs ns rows).map chainAtom) = mk ((relPairs ns' rows').map chainAtom) ↔
+        mk ((relPairs ns rows).map rowDen) = mk ((relPairs ns' rows').map rowDen)) := by
+    intro hnames
+    rw [mk_eq_iff, mk_eq_iff]
+    apply map_mem_transfer
+    intro p hp q hq
+    obtain ⟨r1, h1, rfl⟩ := List.mem_map.1 hp
+    obtain ⟨r2, h2, rfl⟩ := List.mem_map.1 hq
+    exact chainAtom_iff ns ns' rows rows' ok ok' hnames r1 r2 h1 h2 (H r1 (by simp [h1]) r2 (by simp [h2]))
+  simp only [equal, equalG, Bool.and_eq_true, beq_iff_eq, frozenEq, hXne, Bool.not_false, Bool.true_or,
+    and_true]
+  rw [denRows_relPairs, denRows_relPairs]
+  constructor
+  · rintro ⟨⟨⟨_, hs⟩, _⟩, hx⟩
+    have hnames := (sortStrs_eq_iff ns ns' ok.nnd ok'.nnd).1 hs
+    rw [hX, hX'] at hx
+    exact (transfer hnames).1 hx
+  · intro hd
+    have hmem := (mk_eq_iff _ _).1 hd
+    -- a row of the first relation and its partner give the column names
+    obtain ⟨r0, hr0⟩ : ∃ r0, r0 ∈ rows := by
+      cases hh : rows with
+      | nil => exact absurd hh ok.rne
+      | cons r _ => exact ⟨r, by simp⟩
+    obtain ⟨q, hq, e⟩ := List.mem_map.1 ((hmem (rowDen (ns, r0))).1
+      (List.mem_map.2 ⟨(ns, r0), List.mem_map.2 ⟨r0, hr0, rfl⟩, rfl⟩))
+    obtain ⟨r0', hr0', rfl⟩ := List.mem_map.1 hq
+    have hnames := names_of_rowDen ns ns' r0 r0' (ok.len r0 hr0) (ok'.len r0' hr0') e.symm
+    have hs : sortNames ns = sortNames ns' := (sortStrs_eq_iff ns ns' ok.nnd ok'.nnd).2 hnames
+    have hl : ns.length = ns'.length :=
+      length_eq_of_same_members ns ns' ok.nnd ok'.nnd hnames
+    have hrl : rows.length = rows'.length := by
+      have := length_eq_of_same_members _ _ (by rw [← denRows_relPairs]; exact ok.dnd)
+        (by rw [← denRows_relPairs]; exact ok'.dnd) hmem
+      simpa [relPairs] using this
+    refine ⟨⟨⟨hl, hs⟩, hrl⟩, ?_⟩
+    rw [hX, hX']
+    exact (transfer hnames).2 hd
 
 /-! ### the main theorem on the fragment -/
 
@@ -2038,6 +2656,28 @@ theorem dict_facts (n : Nat) (m : List (Rep × List Rep)) (hd : depth (.dict m) 
   refine ⟨⟨by rw [h1]; omega, by rw [h1]; exact wk, fk, pk⟩,
     ⟨by have := dv e.2 h2; omega, wfList_mem kv.2 e.2 wvs h2, fv, pv⟩⟩
 
+theorem seed_acyclic (t : String) (p : V) (s : HV) : hatom t p s ≠ s := by
+  intro h
+  have := congrArg sizeOf h
+  simp [hatom] at this
+  omega
+
+theorem single_acyclic (t : String) (p : V) (s : HV) : [V.tup [(t, p), ("seed", V.set s)]] ≠ s :=
+  seed_acyclic t p s
+
+theorem bucketV_genericMember (y : Rep) (h : genericMember y = true) : bucketV (den y) = .g := by
+  rcases genericMember_den h with ⟨n, hn⟩ | ⟨l, hl⟩ | ht
+  · rw [hn]; rfl
+  · rw [hl]; rfl
+  · rw [ht]; exact bucketV_unit
+
+theorem relOk_of_facts (n : Nat) (names : List String) (rows : List (List Rep))
+    (hd : depth (.relation names rows) < n + 1) (hw : wf (.relation names rows) = true)
+    (hf : frag (.relation names rows) = true) : RelOk names rows := by
+  obtain ⟨h1, h2, h3, _, h5, _, F⟩ := relation_facts n names rows hd hw hf
+  exact ⟨h1, h2, h3, fun row hr => (F row hr).2.2.2.1,
+    fun row hr v hv => ⟨(fragPlainList_mem row v (F row hr).2.2.2.2.1 hv).2, (fragPlainList_mem row v (F row hr).2.2.2.2.1 hv).1⟩, h5⟩
+
 theorem main_frag : ∀ (n : Nat) (a b : Rep), depth a < n → depth b < n → wf a = true → wf b = true →
     frag a = true → frag b = true → MainAt a b := by
   intro n
@@ -2096,6 +2736,151 @@ theorem main_frag : ∀ (n : Nat) (a b : Rep), depth a < n → depth b < n → w
       obtain ⟨⟨c1, c2, c3, c4⟩, ⟨d1', d2', d3, d4⟩⟩ := fe'
       exact ⟨ihH e.1 e'.1 a1 c1 a2 c2 a3 c3 a4 c4, ihH e.2 e'.2 b1 d1' b2 d2' b3 d3 b4 d4,
         (ih e.1 e'.1 a1 c1 a2 c2 a3 c3).1, (ih e.2 e'.2 b1 d1' b2 d2' b3 d3).1⟩
+    -- what the induction hypothesis says about the cells of any two rows of (two) relations
+    have relH : ∀ (ns ns' : List String) (rows rows' : List (List Rep)),
+        depth (.relation ns rows) < n + 1 → depth (.relation ns' rows') < n + 1 →
+        wf (.relation ns rows) = true → wf (.relation ns' rows') = true →
+        frag (.relation ns rows) = true → frag (.relation ns' rows') = true →
+        ∀ r1, r1 ∈ rows ++ rows' → ∀ r2, r2 ∈ rows ++ rows' → CellIH r1 r2 := by
+      intro ns ns' rows rows' d1 d2 w1 w2 f1 f2 r1 h1 r2 h2
+      obtain ⟨_, _, _, _, _, _, F1⟩ := relation_facts n ns rows d1 w1 f1
+      obtain ⟨_, _, _, _, _, _, F2⟩ := relation_facts n ns' rows' d2 w2 f2
+      have cell : ∀ r, r ∈ rows ++ rows' → ∀ v, v ∈ r →
+          depth v < n ∧ wf v = true ∧ frag v = true ∧ plain v = true := by
+        intro r hr v hv
+        rcases List.mem_append.1 hr with h | h
+        · obtain ⟨_, _, _, _, fp, wl, dv⟩ := F1 r h
+          have := dv v hv
+          exact ⟨by omega, wfList_mem r v wl hv, (fragPlainList_mem r v fp hv).2, (fragPlainList_mem r v fp hv).1⟩
+        · obtain ⟨_, _, _, _, fp, wl, dv⟩ := F2 r h
+          have := dv v hv
+          exact ⟨by omega, wfList_mem r v wl hv, (fragPlainList_mem r v fp hv).2, (fragPlainList_mem r v fp hv).1⟩
+      have cell2 : ∀ v, v ∈ r1 ++ r2 → depth v < n ∧ wf v = true ∧ frag v = true ∧ plain v = true := by
+        intro v hv
+        rcases List.mem_append.1 hv with h | h
+        · exact cell r1 h1 v h
+        · exact cell r2 h2 v h
+      refine ⟨fun v hv => ⟨(cell2 v hv).2.2.1, (cell2 v hv).2.2.2⟩, fun v hv v' hv' => ?_⟩
+      obtain ⟨a1, a2, a3, a4⟩ := cell2 v hv
+      obtain ⟨b1, b2, b3, b4⟩ := cell2 v' hv'
+      exact ihH v v' a1 b1 a2 b2 a3 b3 a4 b4
+    -- hash injectivity among the row tuples of (two) relations
+    have rowH : ∀ (ns ns' : List String) (rows rows' : List (List Rep)),
+        depth (.relation ns rows) < n + 1 → depth (.relation ns' rows') < n + 1 →
+        wf (.relation ns rows) = true → wf (.relation ns' rows') = true →
+        frag (.relation ns rows) = true → frag (.relation ns' rows') = true →
+        ∀ x, x ∈ rowTs ns rows ++ rowTs ns' rows' → ∀ y, y ∈ rowTs ns rows ++ rowTs ns' rows' →
+          ∀ S S' : HV, (hashG true x S = hashG true y S' ↔ (S = S' ∧ den x = den y)) := by
+      intro ns ns' rows rows' d1 d2 w1 w2 f1 f2 x hx y hy
+      obtain ⟨_, _, _, _, _, _, F1⟩ := relation_facts n ns rows d1 w1 f1
+      obtain ⟨_, _, _, _, _, _, F2⟩ := relation_facts n ns' rows' d2 w2 f2
+      have tf : ∀ t, t ∈ rowTs ns rows ++ rowTs ns' rows' → depth t < n ∧ wf t = true ∧ frag t = true ∧ plain t = true := by
+        intro t ht
+        rcases List.mem_append.1 ht with h | h
+        · obtain ⟨row, hr, rfl⟩ := List.mem_map.1 h
+          obtain ⟨a, b, c, _⟩ := F1 row hr
+          exact ⟨a, b, c, rfl⟩
+        · obtain ⟨row, hr, rfl⟩ := List.mem_map.1 h
+          obtain ⟨a, b, c, _⟩ := F2 row hr
+          exact ⟨a, b, c, rfl⟩
+      obtain ⟨a1, a2, a3, a4⟩ := tf x hx
+      obtain ⟨b1, b2, b3, b4⟩ := tf y hy
+      exact ihH x y a1 b1 a2 b2 a3 b3 a4 b4
+    -- the hash of a relation differs from the hash of every other plain value
+    have relNe : ∀ (ns : List String) (rows : List (List Rep)) (b : Rep), depth (.relation ns rows) < n + 1 →
+        depth b < n + 1 → wf (.relation ns rows) = true → wf b = true → frag (.relation ns rows) = true →
+        frag b = true → (∀ ns' rows', b ≠ .relation ns' rows') → plain b = true →
+        ∀ s s' : HV, hashG true (.relation ns rows) s ≠ hashG true b s' := by
+      intro ns rows b dr db wr wb' fr fb' hnr pb s s' h
+      obtain ⟨hnne, hnnd, hrne, hwr, hdn, _, F⟩ := relation_facts n ns rows dr wr fr
+      have tfp : ∀ t, t ∈ rowTs ns rows → frag t = true ∧ plain t = true := by
+        intro t ht
+        obtain ⟨row, hr, rfl⟩ := List.mem_map.1 ht
+        exact ⟨(F row hr).2.2.1, rfl⟩
+      have RH := rowH ns ns rows rows dr dr wr wr fr fr
+      have an := seeded_nodup (rowTs ns rows) s tfp (by rw [← denRows_rowTs]; exact hdn)
+        (fun x hx y hy => by have := RH x (by simp [hx]) y (by simp [hy]) s s; simpa using this)
+      obtain ⟨r0, hr0⟩ : ∃ r0, r0 ∈ rows := by
+        cases hh : rows with
+        | nil => exact absurd hh hrne
+        | cons r _ => exact ⟨r, by simp⟩
+      obtain ⟨d0, w0, f0, _⟩ := F r0 hr0
+      have hn0 : 0 < n := by omega
+      have hmem : atomAt (rowT ns r0) s ∈ mk ((rowTs ns rows).map (fun t => atomAt t s)) := by
+        rw [mem_mk]; exact List.mem_map.2 ⟨rowT ns r0, List.mem_map.2 ⟨r0, hr0, rfl⟩, rfl⟩
+      have hbk := bucketV_rowT ns rows r0 hnnd hnne hwr hr0
+      simp only [hashG, hfin, if_true] at h
+      rw [xorRows_eq_mk ns rows s (fun row hr => (F row hr).2.2.1) an] at h
+      cases b <;> simp [frag] at fb' <;> simp [plain] at pb
+      case num x => simp [hashG, hatom] at h
+      case charT i c => simp [hashG, hatom] at h
+      case byteT i c => simp [hashG, hatom] at h
+      case str r off hh => simp [hashG, hatom] at h
+      case bytes r off => simp [hashG, hatom] at h
+      case relation ns' rows' => exact hnr ns' rows' rfl
+      case empty =>
+        simp [hashG, hfin, hatom] at h
+        have := (mk_eq_nil _).1 h.1
+        simp [rowTs] at this
+        exact hrne this
+      case true_ =>
+        simp [hashG, hfin, hatom] at h
+        rw [h.1] at hmem
+        simp at hmem
+        have hu : hashG true (rowT ns r0) s = hashG true (.gtuple []) [] := by
+          rw [hash_singleton _ f0 rfl, hmem]; simp [hashG, hfin, hatom, xorAttrs, hxor_nil_right]
+        have := (ihH (rowT ns r0) (.gtuple []) d0 (by simpa [depth] using hn0) w0
+          (by simp [wf, wfAttrs, namesOf, specialisable]) f0 (by simp [frag, fragAttrs]) rfl rfl s []).1 hu
+        rw [this.2] at hbk
+        simp [den, denAttrs, V.mkTup, bucketV_unit] at hbk
+      case gtuple bs =>
+        obtain ⟨nb, _, fbs, _⟩ := gtuple_facts n bs db wb' (by simpa [frag] using fb')
+        simp only [hashG, hfin, hatom, if_true] at h
+        simp at h
+        have := gtuple_payload_mem bs s' nb fbs
+        rw [show hatom "mapC" (V.set []) s' = [V.tup [("mapC", V.set []), ("seed", V.set s')]] from rfl, ← h.1,
+          mem_mk] at this
+        obtain ⟨t, ht, e'⟩ := List.mem_map.1 this
+        exact atomAt_ne_mapC t (tfp t ht).1 (tfp t ht).2 _ _ _ e'
+      case generic ys =>
+        obtain ⟨fy, ny, ney, _, wy, dy, py⟩ := generic_facts n ys db wb' (by simpa [frag] using fb')
+        have ay := atoms_nodup ys fy py ny (fun x hx y hy =>
+          memH ys [] dy (by simp) wy rfl fy rfl py (by simp) x (by simp [hx]) y (by simp [hy]))
+        have hgm : ∀ y, y ∈ ys → genericMember y = true := by
+          simp only [wf, Bool.and_eq_true] at wb'
+          exact fun y hy => List.all_eq_true.1 wb'.1.1.2 y hy
+        simp [hashG, hfin, hatom] at h
+        rw [h.1] at hmem
+        obtain ⟨y, hy, e⟩ := xorList_mem_atom ys fy py ay _ hmem
+        have hs := atomAt_seed_inj y (rowT ns r0) (fragList_mem ys y fy hy) (py y hy) f0 rfl _ _ e
+        have hu : hashG true y [] = hashG true (rowT ns r0) s := by
+          rw [hash_singleton y (fragList_mem ys y fy hy) (py y hy), hash_singleton _ f0 rfl]
+          exact congrArg (fun a => [a]) e
+        have := (ihH y (rowT ns r0) (dy y hy) d0 (wfList_mem ys y wy hy) w0 (fragList_mem ys y fy hy) f0
+          (py y hy) rfl [] s).1 hu
+        rw [← this.2, bucketV_genericMember y (hgm y hy)] at hbk
+        cases hbk
+      case array vs' off' c' =>
+        obtain ⟨fo, hh, _, _, _, _⟩ := array_facts n vs' off' c' db wb' (by simpa [frag] using fb')
+        simp [hashG, hfin, hatom] at h
+        rw [h.1, xorOpts_eq_mk off' vs' s' fo, mem_mk] at hmem
+        obtain ⟨p, hp, e⟩ := List.mem_map.1 hmem
+        obtain ⟨pp, pf⟩ := fragOpts_mem vs' p.2 fo (idxItems_mem vs' off' p hp)
+        have := atomAt_seed_inj p.2 (rowT ns r0) pf pp f0 rfl _ _ e
+        rw [← h.2] at this
+        exact seed_acyclic _ _ _ this
+      case dict m' =>
+        obtain ⟨_, hwd, hk, hfd, hen, Fd⟩ := dict_facts n m' db wb' (by simpa [frag] using fb')
+        have and' := dictAtoms_nodup m' s' hfd hwd hk (dictH m' m' db db wb' wb' (by simpa [frag] using fb') (by simpa [frag] using fb'))
+        simp [hashG, hfin, hatom] at h
+        rw [h.1, xorDict_eq_mk m' s' hfd and', mem_mk] at hmem
+        obtain ⟨e, he, e'⟩ := List.mem_map.1 hmem
+        obtain ⟨⟨_, _, fk, pk⟩, ⟨_, _, fv, pv⟩⟩ := Fd e he
+        have := atomAt_seed_inj e.2 (rowT ns r0) fv pv f0 rfl _ _ e'
+        rw [hash_singleton e.1 fk pk, ← h.2] at this
+        obtain ⟨t, q, et⟩ := atomAt_seed e.1 fk pk s
+        rw [et] at this
+        exact single_acyclic _ _ _ this
     -- the hash of a dictionary differs from the hash of every other plain value
     have dictNe : ∀ (m : List (Rep × List Rep)) (b : Rep), depth (.dict m) < n + 1 → depth b < n + 1 →
         wf (.dict m) = true → wf b = true → frag (.dict m) = true → frag b = true → (∀ m', b ≠ .dict m') →
@@ -2163,6 +2948,9 @@ theorem main_frag : ∀ (n : Nat) (a b : Rep), depth a < n → depth b < n → w
         rw [hash_singleton e0.1 fk0 pk0] at this
         simp [intSeed, hatom] at this
         exact atomAt_ne_int e0.1 fk0 pk0 s _ _ this.symm
+      case relation ns' rows' =>
+        exact relNe ns' rows' (.dict m) db dm wb' wm (by simpa [frag] using fb') fm (by intro a b e; cases e) rfl s' s
+          (by simp only [hashG, hfin, if_true]; rw [xorDict_eq_mk m s hfd an]; exact h.symm)
     cases a with
     | num x =>
       cases b with
